@@ -77,11 +77,13 @@ Example ex_nthrow :
   = [Some [true]; Some [true]; Some [true; true]; Some [true; true]; Some [true; true; true]; Some [true; true; true]].
 Proof. vm_compute. split; reflexivity. Qed.
 
-(* ---- 4. the native __to_array on table 1 (argument peeked, stays on the stack) ---- *)
+(* ---- 4. the native __to_array on table 1 (argument peeked, stays on the stack): init_table of the result, then the
+        insert of the one entry into the guarded result ---- *)
 Example ex_to_array :
-  map ap_view (ap_native NStdToArray wit_state) = [(AObject, [], [1%N], []); (ASecond, [], [1%N], [])] /\
-  map (fun p => ap_survivors p (0%N :: ap_uses p)) (ap_native NStdToArray wit_state)
-  = [Some [true; true]; Some [true; true]].
+  map ap_view (ap_native F0 NStdToArray wit_state)
+  = [(AObject, [], [1%N], []); (ASecond, [], [1%N], []); (AGrow, [11%N], [1; 11; 0]%N, [0%N])] /\
+  map (fun p => ap_survivors p (0%N :: ap_uses p)) (ap_native F0 NStdToArray wit_state)
+  = [Some [true; true]; Some [true; true]; Some [true; true; true; true]].
 Proof. vm_compute. split; reflexivity. Qed.
 
 (* ---- the gap: RegisterUpvalue on hand-written bytecode WITHOUT the CopyLast the compiler emits.
